@@ -29,7 +29,7 @@ Definition w_iso (k : Z) : Z := (k + 3) mod 6.
 (** a marked substituent cut off at its bond to the anchor, the mark written at both ends of the cut:
       {[#A][#B]}.{#A=F/[$],#B=[$]/C(Cl)=C(/Br)I}   and   {[#B][#A]}.{#A=F/[$],#B=[$]/C(Cl)=C(/Br)I}  *)
 Definition w2_AB : graph :=
-  [wnode 0 "F" 0 (Some "/") [(1, 1)]; wnode 1 "C" 1 (Some "/") [(2, 1); (3, 2); (0, 1)]; wnode 2 "Cl" 1 None [(1, 1)];
+  [wnode 0 "F" 0 (Some "/") [(1, 1)]; wnode 1 "C" 1 (Some "/") [(0, 1); (2, 1); (3, 2)]; wnode 2 "Cl" 1 None [(1, 1)];
    wnode 3 "C" 1 (Some "/") [(1, 2); (4, 1); (5, 1)]; wnode 4 "Br" 1 (Some "/") [(3, 1)]; wnode 5 "I" 1 None [(3, 1)]].
 Definition w2_BA : graph :=
   [wnode 0 "C" 0 (Some "/") [(1, 1); (2, 2); (5, 1)]; wnode 1 "Cl" 0 None [(0, 1)];
@@ -38,7 +38,7 @@ Definition w2_BA : graph :=
 Definition w2_iso (k : Z) : Z := (k + 5) mod 6.
 (** the same with a second marked ligand on the first anchor:  #B=[$]/C(/Cl)=C(/Br)I *)
 Definition w3_AB : graph :=
-  [wnode 0 "F" 0 (Some "/") [(1, 1)]; wnode 1 "C" 1 (Some "/") [(2, 1); (3, 2); (0, 1)]; wnode 2 "Cl" 1 (Some "/") [(1, 1)];
+  [wnode 0 "F" 0 (Some "/") [(1, 1)]; wnode 1 "C" 1 (Some "/") [(0, 1); (2, 1); (3, 2)]; wnode 2 "Cl" 1 (Some "/") [(1, 1)];
    wnode 3 "C" 1 (Some "/") [(1, 2); (4, 1); (5, 1)]; wnode 4 "Br" 1 (Some "/") [(3, 1)]; wnode 5 "I" 1 None [(3, 1)]].
 Definition w3_BA : graph :=
   [wnode 0 "C" 0 (Some "/") [(1, 1); (2, 2); (5, 1)]; wnode 1 "Cl" 0 (Some "/") [(0, 1)];
